@@ -238,7 +238,9 @@ func (m *c12Mon) afterBlock() {
 			// still alive after its last paid month: only a successful auto-renewal allows that, and
 			// it costs the creator one month of the renewal plan's current price
 			plan, ok := s.c13LatestPlan(before.AutoRenewalNextPlan)
-			r.Check(ok, "renewal-without-plan", "auto-renewal", "%s was auto-renewed onto %q which has no available version at height %d", c.Acc.Name, before.AutoRenewalNextPlan, s.Height())
+			if !c13Check(r, ok, "renewal-without-plan", "auto-renewal", "%s was auto-renewed onto %q which has no available version at height %d", c.Acc.Name, before.AutoRenewalNextPlan, s.Height()) {
+				plan.Price = s.Coin(0)
+			}
 			md.left = 1
 			md.expiry = uint64(c12NextMonth(s.Now()).Unix())
 			e, seen := expectCharge[before.Creator]
